@@ -1,7 +1,9 @@
+mod canonv;
 mod gen;
 mod hooks;
 mod kindv;
 mod navv;
+mod numgen;
 mod nestv;
 mod objv;
 mod orderv;
@@ -32,6 +34,7 @@ fn main() {
 					Some("parse") => parsev::replay_parse(&mut rep, &rec),
 					Some("obj") => objv::replay_obj(&mut rep, &mut ost, &rec),
 					Some("nest") => nestv::replay_nest(&mut rep, &rec),
+					Some("canon") => canonv::replay_canon(&mut rep, &rec),
 					Some("conv") => navv::replay_conv(&mut rep, &rec),
 					Some("print") => printv::replay_print(&mut rep, &rec),
 					Some("uneq") => unordv::replay_uneq(&mut rep, &rec),
@@ -50,6 +53,7 @@ fn main() {
 		"record-obj" => objv::record(&args),
 		"nest-child" => nestv::child(),
 		"sweep" => sweepv::record(&args),
+		"record-canon" => canonv::record(&args),
 		"record-parse" => parsev::record(&args),
 		"record-order" => orderv::record(&args),
 		"record-print" => printv::record(&args),
